@@ -336,6 +336,11 @@ func isKnownC06(r sourceaddrs.RemoteSource) string {
 		// it prints as "//", which every parser takes for the sub-path marker
 		return "addr.pkgpath-double-slash"
 	}
+	if strings.Contains(u.Fragment, "//") {
+		// F49: the decoded fragment has "//" (written %2f%2f): it is printed decoded, and every parser takes
+		// the "//" for the sub-path marker (thorough tier, seed 51)
+		return "addr.fragment-double-slash"
+	}
 	if sp != "" && (u.Fragment != "" || u.RawFragment != "") {
 		// the printed form puts the fragment after the sub-path, and splitting takes it for part of the sub-path
 		return "addr.fragment-with-subpath"
